@@ -5,11 +5,17 @@
 mod codec;
 mod enc;
 mod gf256;
+mod guard;
+mod kernels;
 mod obj;
 mod overhead;
 mod params;
+mod slabobs;
 mod stream;
 mod util;
+
+#[global_allocator]
+static ALLOC: guard::GuardAlloc = guard::GuardAlloc;
 
 fn main() {
     let args: Vec<String> = std::env::args().collect();
@@ -28,6 +34,18 @@ fn main() {
         "findfail" => codec::find_fail(&opts),
         "overhead" => overhead::run(&opts),
         "stream" => stream::run(&opts),
+        "kernels" => kernels::run(&opts),
+        "slabobs" => slabobs::run(&opts),
+        // self-test of the guard allocator: must die with SIGSEGV under RQV_GUARD=1 / 2 respectively
+        "guardtest" => {
+            let v = vec![7u8; 41];
+            let x = match opts.str("what", "overread").as_str() {
+                "overread" => unsafe { std::ptr::read_volatile(v.as_ptr().add(41)) },
+                "underread" => unsafe { std::ptr::read_volatile(v.as_ptr().sub(1)) },
+                _ => v[0],
+            };
+            println!("survived mode={} value={}", guard::active_mode(), x);
+        }
         "paramlog" => params::log(&opts),
         "wrapreplay" => params::replay(&opts),
         other => {
